@@ -1,6 +1,6 @@
 (* C17: the one function extracted for the correspondence checks; dispatches on the leading tag. *)
 From Coq Require Import List ZArith String Ascii Bool Arith.
-From Verif Require Import Lib.Sexp Model.C17_base Gen.C17_tables Model.C17_agents Model.C17_bases Model.C17_pyobj Model.C17_star Model.C17_rebind.
+From Verif Require Import Lib.Sexp Model.C17_base Gen.C17_tables Model.C17_agents Model.C17_bases Model.C17_pyobj Model.C17_star Model.C17_rebind Model.C17_hooks.
 Import ListNotations.
 Open Scope string_scope.
 Open Scope list_scope.
@@ -17,7 +17,10 @@ Definition run_C17_all (s : sexp) : sexp :=
       | Some r => r
       | None => match run_star s with
                 | Some r => r
-                | None => match run_rebind s with Some r => r | None => run_C17 s end
+                | None => match run_rebind s with
+                          | Some r => r
+                          | None => match run_hooks s with Some r => r | None => run_C17 s end
+                          end
                 end
       end
   end.
